@@ -36,6 +36,7 @@ class LexResult:
         self.err = None
         self.skeleton = []
         self.strings = []  # (skeleton index, prefix, value chars | None)
+        self.names = {}  # skeleton index -> identifier / number characters (ints or z3 terms), for consumers that need texts
 
     def fail(self, why, pos):
         self.ok = False
@@ -396,6 +397,7 @@ def lex(cs):
             while j < n and (_id_cont(cs[j]) or _is(cs[j], 46)):
                 j += 1
             sk.append(("NUM",))
+            res.names[len(sk) - 1] = tuple(cs[i:j])
             i = j
             line_has_tokens = True
             last_name = None
@@ -418,6 +420,7 @@ def lex(cs):
                         break
                 sk.append(("NAME", kw))
                 last_name = (None, j, s)
+            res.names[len(sk) - 1] = tuple(chars)
             i = j
             line_has_tokens = True
             continue
